@@ -26,6 +26,17 @@ def run(ck, ctx):
     ck.rule("R07.5", "strictness agreement: every last-writer-wins selection takes `other` only when `other > self` (strictly)")
     ck.nd("values 'reachable by local operations' are not modelled: the certificate quantifies over all field values")
     ck.assume("two stamps that are equal under the total order carry equal payloads (stamps are unique per replica: C08)")
+    tree = certify(ck)
+    _r074(ck, tree)
+    # MIR cross-check shared with C06: no ordering of stamps by .time alone
+    for cfg in ctx.configs:
+        prog = ctx.prog(cfg)
+        from . import c06
+        c06.r066(ck, prog, cfg, "R07.5")
+
+
+def certify(ck, rid=lambda r: r, floor_id="R07.0"):
+    """the merge-shape certificate; `rid` maps R07.x rule ids (C06 reports them under its own shared rule)"""
     tree = A.load(FILES)
     _TREE["t"] = tree
     ck.configs.append("source")
@@ -48,33 +59,28 @@ def run(ck, ctx):
     for owner, name, rec in plan:
         f = fns.get((owner, name))
         if f is None:
-            ck.anchor_lost("R07.0", "%s::%s not found" % (owner, name))
+            ck.anchor_lost(rid("R07.0"), "%s::%s not found" % (owner, name))
             continue
         n += 1
         where = "%s:%d" % (f["file"], f["ln"])
         try:
             term, issues = rec(f)
         except Shape as e:
-            ck.bad("R07.0", "%s::%s:shape" % (owner, name),
+            ck.bad(rid("R07.0"), "%s::%s:shape" % (owner, name),
                    "merge shape not certified: %s. The function is no longer one of the recognised lattice idioms, so commutativity/"
                    "associativity/idempotence cannot be vouched for (an added guard, early exit or asymmetric step typically breaks one "
                    "of them)" % e, "%s:%s" % (f["file"], e.ln or f["ln"]))
             continue
-        ck.ok("R07.0", "%s::%s:shape" % (owner, name), "term: %s" % term)
+        ck.ok(rid("R07.0"), "%s::%s:shape" % (owner, name), "term: %s" % term)
         certs[(owner, name)] = term
         for rule, key, msg, ln in issues:
-            ck.bad(rule, "%s::%s:%s" % (owner, name, key), msg, "%s:%s" % (f["file"], ln or f["ln"]))
+            ck.bad(rid(rule), "%s::%s:%s" % (owner, name, key), msg, "%s:%s" % (f["file"], ln or f["ln"]))
         for rule in ("R07.1", "R07.2"):
             if not any(r == rule for r, _, _, _ in issues):
-                ck.ok(rule, "%s::%s" % (owner, name), term)
-    ck.floor("R07.0", n, 10)
+                ck.ok(rid(rule), "%s::%s:%s" % (owner, name, rule[-1]), term)
+    ck.floor(floor_id, n, 10)
     ck.extra["certificates"] = {"%s::%s" % k: v for k, v in certs.items()}
-    _r074(ck, tree)
-    # MIR cross-check shared with C06: no ordering of stamps by .time alone
-    for cfg in ctx.configs:
-        prog = ctx.prog(cfg)
-        from . import c06
-        c06.r066(ck, prog, cfg, "R07.5")
+    return tree
 
 
 class Shape(Exception):
